@@ -272,7 +272,7 @@ func checkDeferredOpt(rc *core.RunCtx, cfg Cfg, out *Out, orderMatters bool) (*d
 	// never starts (its object was already invalid) legitimately do not run at all
 	panicsReported := 0
 	for _, e := range all {
-		if strings.HasPrefix(e.Class, "P:") || e.Class == "A:panic" || e.Class == "M:panic" {
+		if strings.HasPrefix(e.Class, "P:") || e.Class == "A:panic" || e.Class == "M:panic" || e.Class == "I:panic" || e.Class == "R:panic" {
 			panicsReported++
 		}
 	}
